@@ -454,13 +454,47 @@ class ArraySizedGen:
         return out
 
     def _small_sort(self, quick):
-        out = []
+        out = self._small_sort_resort()
         for dl in (1, 3):
             vals = [1, 2, 256 ** (dl - 1) * 3 + 1] if dl > 1 else [1, 2, 11]
             for n in range(0, 5 if quick else 6):
                 for seq in itertools.product(vals, repeat=n):
                     for cm in ("asc", "desc", "m10"):
                         out.append([f"new esize={dl} cap=2 exp=2"] + [f"add {v}" for v in seq] + [f"sort cmp={cm}", "add 0", "sort", "destroy"])
+        return out
+
+    def _small_sort_resort(self):
+        """sort -> mutation(s) of every kind -> sort with the SAME comparator (then with another one).
+        The records [9, 19, 11, 255, 254, 3] are chosen so that `map fn=inc` (bytewise +1: 255 -> 0,
+        9 -> 10, 19 -> 20) breaks the order under asc, desc and m10, as do the index mutations below;
+        a sort that skipped its work because "nothing changed since the last sort with this comparator"
+        would leave the array unsorted."""
+        out = []
+        vals = [9, 19, 11, 255, 254, 3]
+        muts = [
+            ["map fn=inc"], ["map fn=rec"], ["map fn=inc", "map fn=inc"],
+            ["replace_at 200 0"], ["replace_at 0 0"], ["replace_at 7 5"], ["replace_at 128 2 noout=1"],
+            ["swap_at 0 5"], ["swap_at 1 4"], ["reverse"],
+            ["remove_at 0"], ["remove_last"], ["remove 11"], ["remove_at 2", "add 128"], ["remove_all", "add 7", "add 5", "add 6"],
+            ["add 128"], ["add 0"], ["add_at 128 0"], ["add_at 0 6"], ["add_at 77 3"],
+            ["filter_mut p=even"], ["filter_mut p=mod3", "map fn=inc"], ["trim_capacity"], ["trim_capacity", "map fn=inc"],
+            ["it_new", "it_next", "it_replace 200"], ["it_new", "it_next", "it_next", "it_add 128"],
+            ["it_new", "it_next", "it_remove", "it_next", "it_replace 0"],
+            ["zit_new o=0 o2=0", "zit_next", "zit_replace 200 100"], ["zit_new o=0 o2=0", "zit_next", "zit_add 128 64"],
+            ["zit_new o=0 o2=0", "zit_next", "zit_next", "zit_remove", "zit_next", "zit_replace 1 250"],
+            ["new o=1 esize=1 cap=2 exp=2", "add 1 o=1", "add 2 o=1", "zit_new o=0 o2=1", "zit_next", "zit_replace 200 7", "zit_next", "zit_add 128 9"],
+            ["mk_copy to=1", "map fn=inc", "sort cmp=asc o=1"], ["sort cmp=desc", "map fn=inc"],
+        ]
+        other = {"asc": "m10", "desc": "asc", "m10": "desc"}
+        for cm in ("asc", "desc", "m10"):
+            for mu in muts:
+                out.append(["new esize=1 cap=2 exp=2"] + [f"add {v}" for v in vals] +
+                           [f"sort cmp={cm}"] + mu + [f"sort cmp={cm}", "map fn=inc", f"sort cmp={cm}",
+                                                       f"sort cmp={other[cm]}", "destroy"])
+        # wider records: the order depends on the high bytes, inc carries nothing between bytes
+        for cm in ("asc", "m10"):
+            out.append(["new esize=3 cap=1 exp=1.5", "add 255", "add 256", "add 65535", "add 16777215", "add 9", f"sort cmp={cm}",
+                        "map fn=inc", f"sort cmp={cm}", "swap_at 0 4", f"sort cmp={cm}", "destroy"])
         return out
 
     def _small_growth(self, quick):
@@ -607,6 +641,28 @@ class ArraySizedGen:
                 cm = rng.choice(["asc", "desc", "m10"])
                 h.ops.append(f"sort cmp={cm}{h.suffix(o)}")
                 h.sh[o].xs.sort(key=sort_key(cm))
+                if rng.random() < 0.75:
+                    # mutate, then sort again with the SAME comparator (sometimes another one first)
+                    mutw = {"map": 6, "replace_at": 4, "swap_at": 4, "reverse": 3, "add": 3, "add_at": 3, "remove": 1,
+                            "remove_at": 1, "remove_last": 1, "filter_mut": 1, "trim_capacity": 1, "remove_all": 0.2,
+                            "get_at": 0, "get_last": 0, "peek": 0, "index_of": 0, "contains": 0, "reduce": 0, "size": 0, "capacity": 0}
+                    for _ in range(rng.randint(1, 3)):
+                        q = rng.random()
+                        if q < 0.12:
+                            iter_program(h, o, rng, True)
+                        elif q < 0.2:
+                            zip_same_program(h, o, rng)
+                        else:
+                            core_op(h, o, rng, mutw)
+                            if h.ops[-1].startswith("map") and rng.random() < 0.7:
+                                h.ops[-1] = f"map fn=inc{h.suffix(o)}" if "fn=inc" in h.ops[-1] else h.ops[-1]
+                    if rng.random() < 0.2:
+                        cm2 = rng.choice(["asc", "desc", "m10"])
+                        h.ops.append(f"sort cmp={cm2}{h.suffix(o)}")
+                        h.sh[o].xs.sort(key=sort_key(cm2))
+                        core_op(h, o, rng, mutw)
+                    h.ops.append(f"sort cmp={cm}{h.suffix(o)}")
+                    h.sh[o].xs.sort(key=sort_key(cm))
             else:
                 core_op(h, o, rng, w, reject=(focus == "reject"))
                 if p_fail and rng.random() < p_fail and h.ops[-1].split()[0] in ("add", "add_at", "trim_capacity"):
